@@ -22,7 +22,7 @@ C0_11 = ['\x01', '\x08', '\x0b', '\x0c', '\x0e', '\x1f', '\x7f', '\x80', '\x84',
 
 class Ctx:
     def __init__(self, rnd, version='1.0', ns=True, dtd=True, wide=True, max_depth=4, max_children=4, latin1=False,
-                 ents_in_attr=True, tok_charref_ws=False, extsubset=False, cdata=True, comments=True, pis=True):
+                 ents_in_attr=True, tok_charref_ws=False, extsubset=True, cdata=True, comments=True, pis=True, file_prefix=''):
         self.r = rnd
         self.version = version
         self.ns = ns
@@ -47,6 +47,9 @@ class Ctx:
         self.elem_names = []
         self.uris = ['urn:a', 'http://example.org/b', 'urn:c:%C3%A9', 'x']
         self.counter = 0
+        self.file_prefix = file_prefix
+        self.external = False       # external DTD subset + external parsed entities (decided in gen_dtd)
+        self.ext_files = {}         # relative system id -> bytes
 
     def name(self, maxlen=6):
         r = self.r
@@ -148,6 +151,11 @@ def gen_dtd(cx, doc):
     r = cx.r
     dt = {'name': None, 'pubid': None, 'sysid': None, 'internal': [], 'external': None}
     doc['doctype'] = dt
+    if cx.extsubset and r.random() < 0.45:
+        cx.external = True
+        dt['sysid'] = cx.file_prefix + 'ext.dtd'
+        dt['pubid'] = r.choice([None, None, '-//XV//DTD gen 1.0//EN'])
+        cx.tags.add('external-subset')
     # general entities
     for i in range(r.randint(0, 4)):
         name = 'e' + cx.name(3) + str(i)
@@ -165,6 +173,7 @@ def gen_dtd(cx, doc):
             ent['nodes'] = [n for n in nodes if not (n[0] == 'tx' and n[1] == '')]
         else:
             ent['nodes'] = None      # filled later (needs element generator); content entity
+        ent['external'] = bool(cx.external and not textonly and r.random() < 0.6)
         cx.entities[name] = ent
         cx.entity_order.append(name)
     # attribute declarations with defaults
@@ -655,6 +664,23 @@ class Renderer:
             if e['nodes'] is None:
                 e['nodes'] = []
             e['R'] = self.content_string(e['nodes'])
+            if e.get('external'):
+                # external parsed entity: its own file, own encoding, optional text declaration
+                enc = r.choice(['UTF-8', 'UTF-8', 'ISO-8859-1', 'UTF-16']) if not cx.latin1 else r.choice(['ISO-8859-1', 'UTF-8'])
+                body = e['R']
+                try:
+                    body.encode('latin-1' if enc == 'ISO-8859-1' else 'utf-8', 'surrogatepass')
+                except UnicodeEncodeError:
+                    enc = 'UTF-8'
+                td = ''
+                if enc != 'UTF-8' or cx.version == '1.1' or r.random() < 0.4:
+                    td = '<?xml' + (' version="%s"' % cx.version if (cx.version == '1.1' or r.random() < 0.5) else '') + ' encoding="%s"?>' % enc
+                fname = cx.file_prefix + 'ent-%s.xml' % len(cx.ext_files)
+                raw = (td + body)
+                cx.ext_files[fname] = (b'\xff\xfe' + raw.encode('utf-16-le', 'surrogatepass')) if enc == 'UTF-16' else raw.encode('latin-1' if enc == 'ISO-8859-1' else 'utf-8', 'surrogatepass')
+                decls.append(('ent', '<!ENTITY ' + en + r.choice([' SYSTEM "%s"' % fname, ' PUBLIC "-//XV//ENT %s//EN" "%s"' % (len(cx.ext_files), fname)]) + '>'))
+                cx.tags.add('external-entity-' + enc)
+                continue
             decls.append(('ent', '<!ENTITY' + r.choice([' ', '  ', '\n']) + en + ' ' + self.entity_literal(e['R']) + r.choice(['', ' ']) + '>'))
         for en in cx.attdecl_order:
             parts = []
@@ -697,6 +723,39 @@ class Renderer:
                     pass
         allp += list(ri)
         pe_used = False
+        if cx.external:
+            # split the declarations between the internal subset (read first) and the external subset
+            internal, external = [], []
+            for d in allp:
+                (internal if r.random() < 0.5 else external).append(d)
+            # a declaration repeated in the external subset loses against the internal one (first declaration binds)
+            for d in internal:
+                if d[0] == 'ent' and 'SYSTEM' not in d[1] and 'PUBLIC' not in d[1] and r.random() < 0.3:
+                    nm = d[1].split()[1]
+                    external.insert(r.randint(0, len(external)), ('dup', '<!ENTITY %s "LOSER">' % nm))
+                    cx.tags.add('duplicate-decl-first-wins')
+            parts = []
+            if r.random() < 0.5:
+                parts.append('<?xml' + r.choice(['', ' version="%s"' % cx.version]) + ' encoding="UTF-8"?>')
+            i = 0
+            while i < len(external):
+                k = r.randint(1, 3)
+                grp = ''.join(r.choice(['', '\n', ' ']) + x[1] for x in external[i:i + k])
+                i += k
+                x = r.random()
+                if x < 0.25:
+                    grp = '<![INCLUDE[' + grp + r.choice(['', '<![IGNORE[ <!ENTITY zzignored "&undefined;"> ]]>']) + ']]>'
+                    cx.tags.add('conditional-include')
+                elif x < 0.4:
+                    grp = '<!ENTITY %% cs%d "INCLUDE"><![%%cs%d;[' % (i, i) + grp + ']]>'
+                    cx.tags.add('conditional-pe')
+                elif x < 0.5:
+                    grp = grp + '<![IGNORE[ <!ATTLIST %s zzign CDATA "never"> <![INCLUDE[ x ]]> ]]>' % cx.elem_names[0]
+                    cx.tags.add('conditional-ignore')
+                parts.append(grp)
+            extsub = '\n'.join(parts)
+            cx.ext_files[cx.file_prefix + 'ext.dtd'] = extsub.encode('utf-8', 'surrogatepass')
+            allp = internal
         if allp or r.random() < 0.5:
             self.w(r.choice([' ', '']) + '[')
             for kind, s in allp:
@@ -855,4 +914,5 @@ def make(rnd, version=None, ns=None, dtd=None, encoding=None, **kw):
         cx.tags.add('ns')
     if dtd:
         cx.tags.add('dtd')
-    return {'bytes': data, 'text': text, 'cx': cx, 'doc': doc, 'spans': rd.spans, 'encoding': encoding, 'codec': codec, 'bom': bom}
+    ents = [('file:///xv/' + k, v) for k, v in cx.ext_files.items()]
+    return {'bytes': data, 'text': text, 'cx': cx, 'doc': doc, 'spans': rd.spans, 'encoding': encoding, 'codec': codec, 'bom': bom, 'ents': ents}
